@@ -1302,6 +1302,27 @@ class Interp:
                         self.range_count = None
                     return ("iter", dst, sp.expand(o0 + n_el))
                 raise Unsupported("adjacent_difference on unsupported ranges (line %s)" % e.get("line"))
+            if nm == "partial_sum" and len(args) == 3:
+                first, last, out = (self.ev(a, env) for a in args)
+                if all(isinstance(x, tuple) and x[0] == "iter" for x in (first, last, out)) and first[1] is last[1] and first[1].kind == "scal" and out[1].kind == "scal" and out[1] is not first[1]:
+                    src, dst = first[1], out[1]
+                    a0, a1, o0 = self.iter_offset(first), self.iter_offset(last), self.iter_offset(out)
+                    n_el = sp.expand(a1 - a0)
+                    # out[o0] = in[a0];  out[o0+1+r] = out[o0+r] + in[a0+1+r]  for r in [0, n_el-1)
+                    v0 = src.read((a0,))
+                    dst.write((o0,), v0)
+                    self.record(dst.name, (sp.expand(o0),), "=", v0, e)
+                    self.range_count = n_el - 1
+                    try:
+                        # the array's own previous element: written by the step before (or the point write above), so no region read is logged
+                        vr = sp.Indexed(sp.IndexedBase(dst.tag(), real=True), sp.expand(o0 + RSYM)) + src.read((sp.expand(a0 + 1 + RSYM),))
+                        dst.write((sp.expand(o0 + 1 + RSYM),), vr)
+                        self.record(dst.name, (sp.expand(o0 + 1 + RSYM),), "=", vr, e)
+                        self.effects_ranges.append((dst.name, sp.expand(o0 + 1), n_el - 1, vr, e.get("line")))
+                    finally:
+                        self.range_count = None
+                    return ("iter", dst, sp.expand(o0 + n_el))
+                raise Unsupported("partial_sum on unsupported ranges (line %s)" % e.get("line"))
             if nm == "fill":
                 it = self.ev(args[0], env)
                 if isinstance(it, tuple) and it[0] == "iter":
